@@ -117,6 +117,7 @@ def lset_catalogue():
         ('n_tq_s', collect(trans(q), s)), ('n_s_tq', collect(s, trans(q))), ('n_uu', union(union(q, s), p)),
         ('n_dd', diff(diff(q, s), p)), ('n_ud', union(q, diff(s, q))), ('n_id', inter(q, diff(q, s))),
         ('n_v_d', diff(v, s)), ('n_tq_iv', inter(trans(q), v)),
+        ('n_q_sub_isq', collect(q, sub('N', inter(s, q)))), ('n_q_sub_dqs', collect(q, sub('N', diff(q, s)))),
     ]
     return cat
 
@@ -128,6 +129,9 @@ def L_SET():
         steps.append(step('e_' + name, 'or', reaches=[to(e, 't')]))
     # two expressions on one step, and a direct local step
     steps.append(step('e_two', 'or', reaches=[to(fld('q'), 't'), to(fld('s'), 't'), astep('t')]))
+    # steps that can reach themselves: through a link back to the same asset, and locally
+    steps.append(step('loop', 'or', reaches=[to(fld('q'), 'loop')]))
+    steps.append(step('selfstep', 'or', reaches=[astep('selfstep'), astep('t')]))
     a = asset('N', steps=steps, variables=[('v', union(fld('q'), fld('s')))])
     return spec([a], [assoc('PQ', 'N', 'p', MANY, 'N', 'q', MANY), assoc('RS', 'N', 'r', MANY, 'N', 's', MANY)],
                 lang_id='verif.lset')
@@ -268,6 +272,7 @@ def L_INH(cs=None):
         step('dP', 'defense', reaches=[astep('tP')], ttc=ENABLED, tags=['hidden'], meta=MITRE),
         step('viaVar', 'or', reaches=[to(var('vv'), 'tO')]),
         step('toG1', 'or', reaches=[to(collect(sub('G1', collect(fld('os'), fld('ps'))), fld('os')), 'tO')]),
+        step('spread', 'or', reaches=[to(trans(fld('down')), 'tP')]),      # transitive over a field declared on the abstract root
     ])
     A = asset('Am', sup='P', steps=s_decl(1) + [
         step('dA', 'defense', reaches=[astep('tA')], ttc=DISABLED),
@@ -293,6 +298,7 @@ def L_INH(cs=None):
                           # subtype filters whose matching instances are children and grandchildren of the filter type
                           step('viaP', 'or', reaches=[to(sub('P', fld('ps')), 'tP'), to(sub('Am', fld('ps')), 'tA')]),
                           step('chain', 'or', reaches=[to(fld('nxt'), 'tO'), to(trans(fld('prv')), 'tO')]),
+                          step('hasNext', 'exist', requires=[fld('nxt')]), step('noPrev', 'notExist', requires=[fld('prv')]),
                           # a defense with the same name as P's but the opposite default
                           step('dP', 'defense', reaches=[astep('tO')], ttc=DISABLED)], category='C2')
     assocs = [assoc('L', 'P', 'ps', MANY, 'O', 'os', MANY),
@@ -305,7 +311,10 @@ def L_INH(cs=None):
               assoc('Same', 'G1', 'sh', MANY, 'O', 'sk', MANY),
               assoc('Same', 'G2', 'sh', MANY, 'Q', 'sk', MANY),
               # a class name that sorts after the key 'extras'
-              assoc('zlink', 'Am', 'za', MANY, 'O', 'zo', MANY)]
+              assoc('zlink', 'Am', 'za', MANY, 'O', 'zo', MANY),
+              assoc('Tree', 'P', 'up', MANY, 'P', 'down', MANY),
+              # same name, the same two types in opposite roles
+              assoc('Rev', 'G1', 'ra', MANY, 'Q', 'rb', MANY), assoc('Rev', 'Q', 'rc', MANY, 'G1', 'rd', MANY)]
     return spec([P, A, G1, G2, O, G3, Q], assocs, lang_id='verif.linh')
 
 
